@@ -19,6 +19,8 @@ Lemma len_skipn n (s : bytes) : len (skipn (N.to_nat n) s) = len s - n.
 Proof. unfold len. rewrite skipn_length. lia. Qed.
 Lemma len_map {A} (f : A -> N) l : len (map f l) = N.of_nat (length l).
 Proof. unfold len. now rewrite map_length. Qed.
+Lemma len_repeat (a : N) k : len (repeat a k) = N.of_nat k.
+Proof. unfold len. now rewrite repeat_length. Qed.
 Lemma len_0 (s : bytes) : len s = 0 -> s = [].
 Proof. destruct s; [reflexivity|]. rewrite len_cons. lia. Qed.
 
